@@ -76,3 +76,18 @@ func ParseRace(stderr string) *RaceReport {
 	}
 	return r
 }
+
+// SameRace reports whether a race report belongs to the recorded signature
+// "f|g": which two accesses the detector pairs up first depends on the order
+// in which the tasks ran, so one common library function is enough.
+func SameRace(sig string, r *RaceReport) bool {
+	if r == nil || !r.InLibrary() {
+		return false
+	}
+	for _, f := range strings.Split(sig, "|") {
+		if f != "" && (f == r.Frames[0] || f == r.Frames[1]) {
+			return true
+		}
+	}
+	return false
+}
